@@ -652,9 +652,13 @@ func (tdsChan *Channel) WritePacket(packet *Packet) {
 		return
 	}
 
-	// The packet is header-only - pass it directly into the package
-	// channel.
-	if packet.Header.Length == PacketHeaderSize {
+	// Header-only packets belong to the logical channel protocol
+	// (setup, close and their acknowledgement) - pass them directly into
+	// the package channel.
+	// A header-only packet of a response is a data packet without data,
+	// e.g. the packet terminating a message whose packets were all
+	// exhausted, and is handled like any other packet of the response.
+	if packet.Header.Length == PacketHeaderSize && packet.Header.MsgType != TDS_BUF_RESPONSE {
 		tdsChan.deliverPackage(&HeaderOnlyPackage{Header: packet.Header})
 		return
 	}
